@@ -22,18 +22,22 @@ CHECKS = {
  "C04": (MC, "Liveness <>(pc=Done) under weak fairness and IterBound proved by TLC on MC_IPM for every cone class and max_iter<=3; degenerate shapes "
              "(empty/singleton cones, zero data, 1e+-12 magnitudes, max_iter 0..200, time_limit 0) enumerated under catch_unwind + watchdog and every trace validated "
              "(terminal status, iterations<=max_iter, MaxTime decided from the logged clock reading); constructor dimension guard validated by Construct.tla; "
-             "MaxTime mid-run via injected sleeps.", "5/C04", IPM_NOTE,
+             "MaxTime mid-run via injected sleeps; scripted failures at the loop's decision points (scaling, refactorisation, affine/combined solves, step length) whose control "
+             "flow must stay inside IPM.tla's checkpoint actions; magnitude ladders up to 1e+-300; runs to the numerical limit (all tolerances 0); Timers.tla behaviours replayed on the real "
+             "timers; Session.tla (API interleavings) for the iteration budget edited between solves.", "5/C04", IPM_NOTE,
          "TLA+ model checking incl. liveness (TLC) + trace validation of enumerated degenerate solves"),
  "C06": ("exploration", "Per-pass mechanism relations (sigma=(1-alpha_aff)^3, first-iteration damping) checked by TLC on every trace of family G; the distributional claim "
              "(>=99.5% Solved, p95 iteration envelope) is a POSTCONDITION of Dist.tla over counters with a binomial false-alarm bound of 1e-9.",
          "5/C06", IPM_NOTE + " The iteration envelope (30 / 20 symmetric) is empirical.", "trace validation against Trace_IPM + TLC postcondition over run counters (Dist.tla)"),
  "C20": (MC, "PrintShape and LastRowMatches proved on MC_IPM for all control paths; MC_Print checks target switching; on traces TLC checks the printed rows equal the "
              "model's emission sequence, footer = status, identical bytes on buffer/stream/file, silence when verbose is off, configuration header = internal problem facts, "
-             "last row = returned solution to print precision.", "5/C20", IPM_NOTE,
+             "last row = returned solution to print precision; every sequence of 5 (6 thorough) target selections / verbosity changes / solves of Print.tla's design model is replayed on a real "
+             "solver (logs per target, buffer availability); cone-dimension lists by the documented abbreviation rule; linear-algebra line and chordal block vs internal facts.", "5/C20", IPM_NOTE,
          "TLA+ model checking (TLC) + trace validation of captured output against Print.tla / Trace_IPM"),
  "C12": (MC, "Qdldl.tla computes, over exact rationals, the outcome of every factorisation (error kind, fill pattern of L, L, D, inertia, regularisation count, solution of Ax=b) "
              "and of every update/scale/offset/refactor history for all small matrices incl. structurally missing entries, all permutation vectors (valid or not), D-sign vectors and "
-             "regularisation settings; every behaviour is replayed into the real engine and compared; refactor is compared bit-for-bit with a fresh factorisation.",
+             "regularisation settings (incl. eps <= 0 / delta = 0); every behaviour is replayed into the real engine and compared; refactor is compared bit-for-bit with a fresh factorisation; "
+             "QdldlRaw.tla decides the structural error of every raw encoding (any dimensions, entries below the diagonal, unsorted columns); the default (AMD) ordering is compared through solves.",
          "5/C12", "Trusted base: TLC, Rational.tla, the replayer's float-vs-rational comparison (1e-11 relative). Exhaustive for n<=3 (n=4 slices in thorough); threshold ties are don't-care.",
          "TLA+ model enumeration (TLC) with spec->impl replay of every behaviour"),
  "C16": (MC, "Csc.tla gives every public CSC operation a representation invariant (Canonical) and a meaning on the stored-entry map; TLC recomputes the expected result of every recorded call "
@@ -42,7 +46,8 @@ CHECKS = {
          "trace validation of enumerated operation calls against Csc.tla (TLC) + bounded model checking of spec laws"),
  "C08": (MC, "DataUpdate.tla models every argument form of update_P/q/A/b and update_data (accepted, rejected, refused, partially applied) over abstract data versions; "
              "all histories of length 2 (+solve) are replayed on the real solver: result kinds, internal data and KKT copy after each call, and the next solve against a freshly "
-             "built solver on the model's data (bit-for-bit when equilibration is off, verdict class and objective otherwise) plus observer residuals.",
+             "built solver on the model's data (bit-for-bit when equilibration is off, verdict class and objective otherwise) plus observer residuals; fixed histories outside the value lattice "
+             "(wall-clock, infinite right-hand sides through update_b, a solve after an overflowed solve); Session.tla: every interleaving of 5 (6) solve / update / settings / buffer / save / load steps.",
          "5/C08", "Trusted base: TLC, replayer, observer. Histories longer than 2 updates are not enumerated; four seed problems.",
          "TLA+ model enumeration (TLC) with spec->impl replay of every history against the real solver and a fresh-solver oracle"),
  "C09": (MC, "Presolve.tla models cone-list collapsing, the module-level infinity bound (set before/after construction), the reduction map, reduced cone list, capping of b and "
@@ -58,18 +63,22 @@ CHECKS = {
  "C19": ("fault_enumeration", "JsonIO.tla: Save -> one fault -> Load. Every truncation offset, single-byte deletion and 23 semantic single-site corruptions of saved files are classified by the "
              "specification (Canonical predicate of Csc.tla and the constructor's dimension predicates evaluated by TLC on independently parsed fields) and the real load outcome must be Err / Ok "
              "accordingly and never a panic; undamaged round trips must reproduce data (bit-exact with equilibration off, 16 ulps otherwise), cones, settings incl. infinite time_limit, overrides, "
-             "and the solve verdict; histories that edit public settings before saving are included.",
+             "and the solve verdict; histories that edit public settings or update the data before saving, a struct-level sweep of every settings field, overrides at load time, "
+             "and Session.tla's save/load interleavings are included.",
          "5/C19", "Trusted base: TLC, independent JSON field parser in the harness (serde_json::Value), FloatOrd. Quick samples byte offsets; thorough enumerates all.",
          "fault enumeration validated against JsonIO.tla by TLC (trace validation)"),
  "C05": (MC, "Lifecycle.tla (three threads, set_infinity interleavings, the two reads of the bound in DefaultSolver::new) is model-checked: a built solver's outcome is frozen and "
              "depends only on its own reads; Consistency.tla relates pairs of real runs (13 transformations / configurations, same object solved twice, instances on concurrent threads) "
-             "mapped back to the base formulation: verdict class, weak duality across runs with explicitly computed slack, agreement of reported objectives, bit equality where demanded.",
+             "mapped back to the base formulation: verdict class, weak duality across runs with explicitly computed slack, agreement of reported objectives, bit equality where demanded; "
+             "Lifecycle.tla's Frozen and shared-bound facts are bound to the code (set_infinity from another thread after / before the build).",
          "5/C05", "Trusted base: TLC, observer map-back and slack. faer backend not built; pairs without a full verdict on both sides are not compared (counted).",
          "TLA+ model checking (TLC) + trace validation of run pairs against Consistency.tla"),
  "C11": (MC, "KKT.tla defines the intended KKT matrix declaratively (origin of every stored entry and its coordinate, for both triangles, with sparse expansions of second-order and "
              "generalised power cones); TLC checks every layout assembled by the real code (14 cone lists x all P patterns n<=3 x A patterns x 2 triangles) and every KKT state read "
-             "from real solvers after 0..200 iterations incl. re-solves (copies bit-equal, no regularisation left, sign pattern, regulariser value, identity at default start, H_K z = s).",
-         "5/C11", "Trusted base: TLC, Csc.tla, observer Schur complement. Operator agreement is checked through H z = s on symmetric cones only.",
+             "from real solvers after 0..200 iterations incl. re-solves (copies bit-equal, no regularisation left, sign pattern, regulariser value, identity at default start, H_K z = s, "
+             "and entry by entry the Schur-eliminated block against the cones' own mul_Hs for every cone type); Refine.tla / RefineRules.tla model the iterative refinement of one KKT solve "
+             "(design invariants by TLC) and Trace_Refine re-derives every decision of 1100 real solves and the regularised-factor identity b - K x0 = eps S x0.",
+         "5/C11", "Trusted base: TLC, Csc.tla, observer Schur complement and residuals.",
          "trace validation (TLC) of assembled layouts and solver KKT states against KKT.tla"),
  "C15": (MC, "ConeStep.tla decides safe/bounded/tight in integer arithmetic for every interior integer point and direction of NN/zero/SOC cones (enumerated; MC_ConeStep checks convexity/monotonicity "
              "of the predicates), validates the backtracking protocol of exp/power/genpower line searches probe by probe against observer membership, composite steps (incl. PSD) and "
